@@ -4,6 +4,7 @@ import (
 	"encoding/base64"
 	"fmt"
 	"path/filepath"
+	"strconv"
 	"strings"
 
 	"pvh/internal/core"
@@ -70,17 +71,35 @@ func runC18Golden(c *core.Ctx, g *Golden) {
 		probe = append(probe, []byte(k))
 	}
 	probe = append(probe, []byte("absent-key"), []byte("torn-key"))
-	im := crashfs.Image{}
-	for n, d := range g.Files {
-		raw, err := base64.StdEncoding.DecodeString(d)
-		if err != nil {
-			panic(err)
-		}
-		im[filepath.Join("db", n)] = raw
+	// seqShift: the same directory with every segment's sequence number (the part of the file name after the dash,
+	// a 64-bit decimal in the documented naming) raised by a constant: what the pinned version would have written
+	// after that many more rollovers. Order and everything else is unchanged, so the contents must be too
+	// (seeded/R6-C18-m2: sequence number parsed with 16 bits).
+	type variant struct {
+		fsk      core.FSKind
+		seqShift uint64
 	}
-	for _, fsk := range []core.FSKind{core.FSOS, core.FSOSMMap, core.FSMem, core.FSCrash} {
+	variants := []variant{{core.FSOS, 0}, {core.FSOSMMap, 0}, {core.FSMem, 0}, {core.FSCrash, 0},
+		{core.FSCrash, 70000}, {core.FSMem, 1<<32 + 5}, {core.FSOS, 1<<63 + 11}}
+	for _, v := range variants {
+		fsk := v.fsk
+		im := crashfs.Image{}
+		for n, d := range g.Files {
+			raw, err := base64.StdEncoding.DecodeString(d)
+			if err != nil {
+				panic(err)
+			}
+			im[filepath.Join("db", shiftSeq(n, v.seqShift))] = raw
+		}
+		if v.seqShift != 0 {
+			c.Stat("golden_opens_shifted_sequence", 1)
+		}
 		fail := func(sig, detail string) {
-			c.Violation(sig+"/"+g.Name, fmt.Sprintf("golden %s (%s) on %s: %s", g.Name, g.Desc, fsk, detail), map[string]interface{}{"golden": g.Name, "fs": fsk})
+			if v.seqShift != 0 {
+				sig += "/seq-shift"
+				detail = fmt.Sprintf("[segment sequence numbers raised by %d] %s", v.seqShift, detail)
+			}
+			c.Violation(sig+"/"+g.Name, fmt.Sprintf("golden %s (%s) on %s: %s", g.Name, g.Desc, fsk, detail), map[string]interface{}{"golden": g.Name, "fs": fsk, "seq_shift": v.seqShift})
 		}
 		env, err := installImage(fsk, im)
 		if err != nil {
@@ -186,6 +205,31 @@ func runC18Golden(c *core.Ctx, g *Golden) {
 	if c.Case == 0 {
 		c.Sample(map[string]interface{}{"golden": g.Name, "desc": g.Desc, "shape": g.Shape, "files": len(g.Files), "keys": len(want)})
 	}
+}
+
+// shiftSeq renames NNNNN-S.psg / NNNNN-S.psg.pmt to NNNNN-(S+shift).psg[.pmt]; other names are returned unchanged.
+func shiftSeq(name string, shift uint64) string {
+	if shift == 0 {
+		return name
+	}
+	rest := ""
+	base := name
+	if strings.HasSuffix(base, ".psg.pmt") {
+		base, rest = strings.TrimSuffix(base, ".psg.pmt"), ".psg.pmt"
+	} else if strings.HasSuffix(base, ".psg") {
+		base, rest = strings.TrimSuffix(base, ".psg"), ".psg"
+	} else {
+		return name
+	}
+	i := strings.IndexByte(base, '-')
+	if i < 0 {
+		return name
+	}
+	seq, err := strconv.ParseUint(base[i+1:], 10, 64)
+	if err != nil || seq > ^uint64(0)-shift {
+		return name
+	}
+	return base[:i+1] + strconv.FormatUint(seq+shift, 10) + rest
 }
 
 // forwardCheckpoint validates all files of the directory with the independent decoder.
